@@ -68,6 +68,7 @@ var vanishedRe = regexp.MustCompile(`open (/simcache/[0-9a-f]{2}/[0-9a-f]{64}-[a
 
 func execute(c Case, tr *rec) batch.Result {
 	dir := batch.ModDir("cachesim2", c.Mod.Digest())
+	defer batch.LockModDir(dir)()
 	if err := c.Mod.Write(dir); err != nil {
 		return batch.Result{Infra: err.Error()}
 	}
